@@ -358,7 +358,10 @@ struct Value {
             j = 0;
             // vc holds the digits least significant first, which is the reversed order already
             for (auto it = vc.begin(); it != vc.end(); ++it) {
-                j = (j * 10) + *it;
+                if (__builtin_mul_overflow(j, (int64_t)10, &j) || __builtin_add_overflow(j, (int64_t)*it, &j)) {
+                    fprintf(stderr, "reversed value does not fit in 64 bits\n");
+                    return;
+                }
             }
             int64 = j;
             return;
